@@ -373,6 +373,11 @@ func TestVerif_C13(t *testing.T) {
 			}
 		}
 		lateOK := rapid.SliceOfN(rapid.IntRange(0, 5), 12, 12).Draw(t, "lateResults")
+		// a step still in flight may stay in flight well beyond the configured bid timeout before it completes
+		if timeout > 0 && len(h.pending) > 0 && rapid.Bool().Draw(t, "lateResultsAreSlow") {
+			note("in-flight steps outlast the bid timeout")
+			time.Sleep(4 * timeout)
+		}
 		li := 0
 		deadline := time.After(c13Wait)
 	drain:
